@@ -354,7 +354,7 @@ def checksum_rule(ctx, I):
     res = I.run_method(st, GP, 'stringify', Obj('GP'), [])
     n = 0
     for (s, v) in res:
-        evs = [e for e in s.trace if e[0] == 'checksum-of' and e[2].endswith('stringify')]
+        evs = [e for e in s.trace if e[0] == 'checksum-of']      # computed by stringify or by a helper it calls
         if not evs or isinstance(v, Raised) or not isinstance(v, Cat):
             continue
         n += 1
